@@ -34,7 +34,7 @@ import (
 
 // The preamble defines shared objects in userdict; operand expressions refer
 // to them so that aliasing between operands is part of the enumeration.
-const preamble = `/A [1 2 3] def /B 5 array def /S (abc) def /T 4 string def ` +
+const preamble = `/A [1 2 3] def /B 5 array def /S (a` + "\xe9" + `c) def /T 4 string def ` +
 	`/D 3 dict def D /x 1 put /E << /x 2 /y (s) >> def /P {1 add} def /Q {pop} def ` +
 	`/count 99 def` // an operator name shadowed in userdict: lookups must find the topmost definition
 
@@ -57,10 +57,14 @@ var pool = []string{
 	"D", "E", "D", // (D twice: second reference to the same dictionary)
 	// procedures, mark
 	"/P load", "/Q load", "{}", "mark",
+	// the interpreter's own shared-looking objects as operands (they are per
+	// instance: whatever one program stores there must not be visible to the
+	// fresh interpreter of the next execution)
+	"StandardEncoding", "systemdict", "FontDirectory", "errordict",
 }
 
 // quickPool indexes the pool entries used for the largest arity.
-var smallPool = []string{"0", "1", "-1", "3", "9223372036854775807", "-9223372036854775808", "0.5", "true", "/x", "/count", "S", "S 1 2 getinterval", "A", "A 1 2 getinterval", "D", "E", "/P load", "{}", "mark"}
+var smallPool = []string{"0", "1", "-1", "3", "9223372036854775807", "-9223372036854775808", "0.5", "true", "/x", "/count", "S", "S 1 2 getinterval", "A", "A 1 2 getinterval", "D", "E", "/P load", "{}", "mark", "StandardEncoding", "systemdict"}
 
 var operators = func() []string {
 	var ops []string
